@@ -6,7 +6,7 @@ import random
 import warnings
 
 from . import tlc, decio
-from .core import Outcome, ensure_repo_on_path, finish, pmap, Machinery
+from .core import Outcome, ensure_repo_on_path, finish, pmap, Machinery, chunked
 from .pdgdata import tables as pdg_tables
 
 PROP = "C07"
@@ -282,6 +282,7 @@ def wf_particle(src):
     return True
 
 
+@chunked()
 def judge(cases, wd, o, what):
     tf = wd / f"trace_{len(list(wd.glob('trace_*.json')))}.json"
     tf.write_text(json.dumps([{k: v for k, v in c.items() if k not in ("text", "cid")} for c in cases]))
